@@ -33,7 +33,7 @@ ASSUMPTIONS = ["finite data; zero rows / columns / components are exempt as stat
 def mag(draw, emin=-40, emax=40, allow_zero=True):
     if allow_zero and draw(st.integers(0, 5)) == 0:
         return 0.0
-    m = draw(st.integers(16, 31)) / 16.0
+    m = draw(st.one_of(st.integers(16, 31).map(lambda k: k / 16.0), st.sampled_from([2.0 - 2.0**-40, 1.0 + 2.0**-40, 2.0 - 2.0**-52])))
     e = draw(st.integers(emin, emax))
     s = draw(st.sampled_from([-1.0, 1.0]))
     return float(s * np.ldexp(m, e))
@@ -47,8 +47,11 @@ def strategy(tier):
         kind = draw(st.sampled_from(["nominal", "gradjac", "gradjac", "kkt", "kkt", "create"]))
         n = draw(st.integers(1, nmax))
         m = draw(st.integers(0, 4))
-        regime = draw(st.sampled_from(["wide", "wide", "sub_unit", "narrow"]))
-        emin, emax = {"wide": (-40, 40), "sub_unit": (-30, -1), "narrow": (-3, 3)}[regime]
+        regime = draw(st.sampled_from(["wide", "wide", "sub_unit", "narrow", "extreme"]))
+        if regime == "extreme" and kind == "kkt":
+            regime = "wide"
+        # "extreme": beyond the range (and mantissa resolution) of single precision
+        emin, emax = {"wide": (-40, 40), "sub_unit": (-30, -1), "narrow": (-3, 3), "extreme": (-300, 300)}[regime]
         vec = lambda k: [draw(mag(emin, emax)) for _ in range(k)]  # noqa: E731
         case = {"kind": kind, "n": n, "m": m, "regime": regime}
         case["g"] = vec(n)
@@ -61,6 +64,7 @@ def strategy(tier):
         case["fmt"] = draw(st.sampled_from(["coo", "csr", "csc"]))
         if kind == "create":
             case["stype"] = draw(st.sampled_from(["Nominal", "GradJac", "KKT"]))
+            case["via"] = draw(st.sampled_from(["create_scaling", "transformation_double", "transformation_single"]))
         return case
 
     return _s()
@@ -237,9 +241,21 @@ def _check_create(case, labels):
 
     stype = case["stype"]
     labels.append(f"create:{stype}")
-    params = Params(scaling_type=ScalingType[stype])
+    via = case.get("via", "create_scaling")
+    labels.append(f"via:{via}")
     try:
-        sc = create_scaling(P(), params, xs.copy(), np.zeros(m))
+        if via == "create_scaling":
+            params = Params(scaling_type=ScalingType[stype])
+            sc = create_scaling(P(), params, xs.copy(), np.zeros(m))
+        else:
+            # the way a Solver obtains it: through the Transformation, for either working precision
+            # (the scaling is a property of the user's double-precision data)
+            from pygradflow.params import Precision
+            from pygradflow.transform import Transformation
+
+            params = Params(scaling_type=ScalingType[stype], scaling_primal=xs.copy(), scaling_dual=np.zeros(m),
+                            precision=Precision.Single if via == "transformation_single" else Precision.Double)
+            sc = Transformation(P(), params).scaling
     except Exception as e:
         if stype == "KKT" and type(e) is Exception and "Equilibration failed to converge" in str(e):
             return excluded("equilibration_did_not_return", labels)
